@@ -124,6 +124,25 @@ def gen_cases(rng, tier, binary, workdir):
         k[0] += 1
         cases.append(cc.make_execv_case("v%d" % k[0], m["prog"], m["arrows"], m["cmrs"], m["inp"], padty, padbits, jet_ids, costs,
                                         meta={"value": m["value"], "gen": "value-level"}))
+    # ---- 4. typed copies `pair iden anchor : T -> T * 1` of inputs of 1 .. 24 bits sitting at every bit offset 1 .. 7 (and
+    # 0, 8, 9) of a shared buffer: the bytes of an unaligned Value (RawByteIter, iter_padded, write_value) reach the output
+    tcp = cc.typed_copy_programs()
+    tinfos = cc.harness_info(binary, [p for p, _t in tcp], workdir)
+    for (p, ty), inf in zip(tcp, tinfos):
+        if inf[0] == "err" or inf[0][-1][0] != ty:
+            notes["typed_copy_rejected"] = notes.get("typed_copy_rejected", 0) + 1
+            continue
+        arrows, cmrs = inf
+        w = pg.width(ty)
+        for padty in cc.PAD_TYPES:
+            if tier == "quick" and pg.width(padty) in (0, 8) and w not in (3, 9):
+                continue
+            for pat in range(2):
+                bits = [1] * w if pat == 0 else r5.bits(w)
+                padbits = cc.rand_padded(r5, padty, pg.rand_value(r5, padty))
+                k[0] += 1
+                cases.append(cc.make_execv_case("v%d" % k[0], p, arrows, cmrs, (ty, bits), padty, padbits, jet_ids, costs,
+                                                meta={"value": pg.of_padded(ty, bits), "gen": "value-level"}))
     return cases, notes
 
 
